@@ -79,6 +79,18 @@ pub fn run(r: &mut Report) {
     }
     cases.push(C { id: "create-star-consumes-created-dotfile", ap: vec![], bm: vec![], bp: vec![(".buildinfo", 1)], rules: allow_all(), prules: vec![ArtifactRule::Create(vp("*")), ArtifactRule::Disallow(vp(".*"))], expect: true });
     cases.push(C { id: "question-mark-and-class-cover-a-dot", ap: vec![], bm: vec![(".a", 1)], bp: vec![], rules: vec![ArtifactRule::Allow(vp("?a")), dis()], prules: allow_all(), expect: true });
+    // a rule that repeats the kind and pattern of an earlier rule of the list is a rule of its own (it may differ in its source, and
+    // even an identical rule reads the queue as it is by then)
+    cases.push(C { id: "two-matches-same-pattern-different-destination", ap: vec![("x", 1), ("out/y", 2)], bm: vec![("x", 1), ("y", 2)], bp: vec![],
+        rules: vec![mtch("*", None, Artifact::Products, None, "a"), mtch("*", None, Artifact::Products, Some("out"), "a"), dis()], prules: allow_all(), expect: true });
+    cases.push(C { id: "two-matches-same-pattern-second-does-not-cover", ap: vec![("x", 1), ("out/y", 2)], bm: vec![("x", 1), ("y", 3)], bp: vec![],
+        rules: vec![mtch("*", None, Artifact::Products, None, "a"), mtch("*", None, Artifact::Products, Some("out"), "a"), dis()], prules: allow_all(), expect: false });
+    cases.push(C { id: "require-repeated-after-the-artifact-was-consumed", ap: vec![], bm: vec![("f", 1)], bp: vec![],
+        rules: vec![ArtifactRule::Require(vp("f")), ArtifactRule::Allow(vp("f")), ArtifactRule::Require(vp("f"))], prules: allow_all(), expect: false });
+    cases.push(C { id: "allow-repeated", ap: vec![], bm: vec![("f", 1), ("g", 1)], bp: vec![],
+        rules: vec![ArtifactRule::Allow(vp("f")), ArtifactRule::Allow(vp("f")), ArtifactRule::Allow(vp("g")), dis(), dis()], prules: allow_all(), expect: true });
+    cases.push(C { id: "create-repeated-with-delete-between", ap: vec![], bm: vec![("old", 1)], bp: vec![("new", 2)],
+        rules: vec![ArtifactRule::Delete(vp("*")), ArtifactRule::Delete(vp("*")), dis()], prules: vec![ArtifactRule::Create(vp("*")), ArtifactRule::Create(vp("*")), dis()], expect: true });
     for c in cases {
         let res = run_two(&c.ap, &c.bm, &c.bp, c.rules.clone(), c.prules.clone());
         r.case(c.id, json!({"a_products": c.ap, "b_materials": c.bm, "b_products": c.bp, "material_rules": format!("{:?}", c.rules), "product_rules": format!("{:?}", c.prules)}),
